@@ -167,6 +167,8 @@ def rules(rep, facts):
     if 'toml_edit' in facts.crates and 'serde' in feats:
         r2_tunnel(rep, facts)
         r4_none_and_insert(rep, facts)
+        from .rules_c07 import r7_forwarding
+        r7_forwarding(rep, facts, rid='C13/R6', traits=(sm.SER, sm.DE))
         if 'parse' in feats:
             r3_enum_access(rep, facts)
             from .rules_c01 import r7_single_parser
